@@ -301,12 +301,14 @@ def doc_edit(doc, e, n):
         doc.add_file(io.BytesIO(PNG + bytes([n % 3])))
         return None
     if k == "set_part":
-        doc.set_part("Thumbnails/thumbnail.png", b"T" + bytes([n % 250]))
-        return None
+        data = b"T" + bytes([n % 250])
+        doc.set_part("Thumbnails/thumbnail.png", data)
+        return ("bin", "Thumbnails/thumbnail.png", data)
     if k == "del_part":
         names = [x for x in doc.get_parts() if x.startswith(("Thumbnails/", "Pictures/"))]
         if names:
             doc.del_part(sorted(names)[0])
+            return ("deleted", sorted(names)[0], None)
         return None
     if k == "read":
         doc.styles.root  # noqa: B018
@@ -381,13 +383,27 @@ def run_document(case, ctx):
         with ctx.guard(("C10", "Document", "exception"), case):
             doc = open_source(case["source"], scratch)
             toks = []
+            binary = {}  # name -> bytes | None (deleted): what the unsaved edits made of the binary parts, known by construction
             for n, e in enumerate(case["pre"]):
                 t = doc_edit(doc, e, n)
-                if t:
+                if t and len(t) == 3:
+                    binary[t[1]] = t[2]
+                elif t:
                     toks.append(t)
             which = case["what"]
+
+            def check_binary(holder, who, sig_tail):
+                for name, data in binary.items():
+                    try:
+                        got = holder.get_part(name)
+                    except Exception:
+                        got = None
+                    ctx.check(got == data, ("C10", who, sig_tail), f"{name}: unsaved {'deletion' if data is None else 'set_part'} before cloning, "
+                              f"afterwards the {who} holds {None if got is None else got[:12]!r}, expected {None if data is None else data[:12]!r}", case)
             if which == "document":
                 c = doc.clone
+                check_binary(doc.container, "Document.clone original", "modifies-original")
+                check_binary(c.container, "Document.clone clone", "not-equal-at-birth-binary")
                 before = doc_snapshot(doc)  # taken after: forces no load before cloning (lazy parts stay unread)
                 birth = doc_snapshot(c)
                 ctx.check(set(birth) == set(before), ("C10", "Document.clone", "parts-differ-at-birth"),
@@ -441,6 +457,8 @@ def run_document(case, ctx):
                 cont = doc.container
                 names0 = sorted(cont.get_parts())
                 c = cont.clone
+                check_binary(cont, "Container.clone original", "modifies-original")
+                check_binary(c, "Container.clone clone", "not-equal-at-birth-binary")
                 ctx.check(sorted(c.get_parts()) == sorted(n for n in names0), ("C10", "Container.clone", "parts-differ-at-birth"),
                           f"{sorted(set(names0) ^ set(c.get_parts()))}", case)
                 for name in names0:
